@@ -13,7 +13,7 @@ import (
 
 // C10 with SyncWrites, acknowledged commits survive loss of unsynced data.
 func C10(c *core.Ctx) {
-	c.Rule("SyncWrites workload children (as C08) feed badger's persistence hook events into a durable-image recorder: a file's bytes are those read back at its last msync/fsync event, " +
+	c.Rule("SyncWrites workload children (as C08; every second configuration with the value log in a separate ValueDir) feed badger's persistence hook events into a durable-image recorder: a file's bytes are those read back at its last msync/fsync event, " +
 		"a directory entry (create, unlink, rename) counts only after a later directory sync of its directory, unsynced files are zero-filled at their creation size; at chosen event " +
 		"numbers (first/last/random occurrence of every event class + uniform) and after Close the image is written out under the side-log lock, so every acknowledgement logged before " +
 		"it must be contained; a verifier child opens each image: Open succeeds, every transaction acknowledged before the freeze is visible, recovered set is a commit-order prefix, " +
@@ -56,6 +56,7 @@ func C10(c *core.Ctx) {
 		// image run
 		s, sp := newCrashSpec(c, work, cfg, 0, fmt.Sprintf("img-%d", ci))
 		s.EndMode = "close"
+		s.SeparateValueDir = ci%2 == 1 // value log in its own directory: its entries need their own directory syncs
 		s.ImageAt = pts
 		s.ImageDir = filepath.Join(filepath.Dir(sp), "images")
 		writeSpec(s, sp)
